@@ -3,6 +3,16 @@
 import json, os, re, sys
 ROOT = os.path.join(os.path.dirname(os.path.abspath(__file__)), '..', 'seeded')
 NEEDS = {
+ 'C03_7': "a layout whose signature has an entry of magnitude other than 0 or 1 (Layout([2, 1, -3])): products through the runtime-sparse kernels",
+ 'C05_7': "inv() / division / hitzer_inverse of an exactly singular multivector whose coefficients are not all equal and whose largest is not a power of two (5 + 3e1 + 4e2, (1+e1)(1+3e2)), dims <= 5",
+ 'C09_7': "factorise() on a layout whose basis-vector ids are not 1..n (firstIdx = 0, string ids), blade skipping an id",
+ 'C10_7': "number - multivector inside an njit function on unsigned storage or on signed storage holding the minimum of the dtype",
+ 'C12_7': "object_set_cost_matrix(objs, objs) with the same list object, generic type, a set mixing real and imaginary rounds or holding an unnormalised object",
+ 'C13_7': "C*~C with a grade-4 part and 0 < scalar + norm < 1e-6: roots of screw rotors within 1.4e-3 rad of a full turn; rounds just outside a coplanar-disjoint position",
+ 'C14_7': "rotation(B) for a simple base bivector of unit magnitude (e12, (3e12+4e13)/5)",
+ 'C16_7': "exp of an even argument without scalar part that has a non-null grade-4 component (four or more generators)",
+ 'C19_7': "str -> parse on a layout with blade names that have a non-word character in their interior ('v:x', default names of a negative first id 'e-1')",
+ 'C20_7': "write_ga_file(sparse=False, support=False) — what MVArray.save passes — then read_ga_file: support reported for dense data",
  'C13_5': "rotor_between_objects / rotor_between_lines on two lines of exactly opposite direction displaced sideways (null-C branch, gamma > 0)",
  'C13_6': "interpolate_rotors between two poses that differ in scale (TR to TRS); in compiled mode the NaN it produces makes exp() loop forever",
  'C15_5': "classify() of a Round with non-zero radius whose direction blade is not a unit blade (2, -3*e1, e1+e2, 2*e12)",
